@@ -180,4 +180,14 @@ CHECKS = {
         note=COMMON_NOTE + " Memory-level races are observed by the race detector on the executed schedules only; it feeds the verdict as an observation instrument (exit 66 = race).",
         technique="TLA+ interpreter state machine with concurrent Runs, TLC interleaving enumeration replayed on goroutines via a spy-operator scheduler (also under -race); trace validation of free-running stress",
         design_ref="DESIGN.md section 6 (C17)"),
+    "C18": dict(
+        text="The specification defines Load (opset = maximum version over all imports, supported iff 13; every initializer decodable "
+             "per Decode.tla) and Run's refusal of unregistered operator types; TLC enumerates the structured space with exact expected "
+             "outcomes and error classes (and checks as an invariant that an unregistered operator always makes Run fail with the "
+             "unsupported-operator error); the harness marshals each model, loads it under recover() and applies byte-level "
+             "perturbation sweeps to every generated model and every sample file, plus seeded random byte strings. The quantifier 'all "
+             "byte strings' is only sampled by the sweeps.",
+        note=COMMON_NOTE,
+        technique="TLA+ Load/Run refusal semantics + TLC BFS over the structured model space, replayed into NewModelFromBytes/Run, with harness-side byte perturbation sweeps",
+        design_ref="DESIGN.md section 6 (C18)"),
 }
